@@ -235,7 +235,13 @@ func c01Run(r *mon.Run) {
 // values only, one heavy tie + distinct rest, mostly distinct,
 // mirror-asymmetric, one sample entirely above the other.
 func randomTieAlloc(rng *mon.Rand, i int) (T, a []int) {
-	eu, et := stats.MannWhitneyExactLimit, stats.MannWhitneyTiesExactLimit
+	return randomTieAllocLim(rng, i, stats.MannWhitneyExactLimit, stats.MannWhitneyTiesExactLimit)
+}
+
+// randomTieAllocLim is randomTieAlloc with the size limits given by the
+// caller (C02's quantifier names 50+50 and 25+25 whatever the library's
+// limit variables say).
+func randomTieAllocLim(rng *mon.Rand, i int, eu, et int) (T, a []int) {
 	pickN := func(lim int) int {
 		if lim < 1 {
 			return 1
